@@ -424,7 +424,7 @@ func check(prop, tier string, seed uint64) int {
 					}
 					mu.Unlock()
 					mu.Lock()
-					iso := isolated[li]
+					iso := isolated[li] || lc.Isolate
 					mu.Unlock()
 					if iso {
 						args = append(args, "-isolate")
